@@ -137,6 +137,25 @@ def run(F, R):
         R.check("C13-R4", "observer-owns-sender", len(mk) == 1 and len(obs) == 1 and re.fullmatch(r"StateMachineProgressObserver\{channel\([^)]*\)\.0\}", obs[0]) is not None, str(obs), "the progress sender is not moved into the observer: %s" % obs)
 
     # ---------------------------------------------------------------- R5 the emission future ends with a flush (handshake)
+    # the observer end: every value the installer reports is put on the channel, unconditionally and unchanged
+    ob = [b for b in c.bodies if b["kind"] == "coroutine" and "::observer::" in b["id"] and "::receive_progress::" in b["id"]]
+    fnb = [b for b in c.bodies if b["kind"] == "fn" and "::observer::" in b["id"] and b["id"].endswith("::receive_progress")]
+    if R.floor("C13-R4", "ProgressObserver::receive_progress of the state machine's observer", min(len(ob), len(fnb)), 1):
+        ov = BV.of(ob[0])
+        fv = BV.of(fnb[0])
+        sends = [(bi, t) for bi, t in ov.calls() if lib.callee_is(t, "send") and "SinkExt" in (t.get("callee") or "")]
+        rets = [bi for bi in ov.reach0 if ov.blocks[bi]["t"]["k"] == "return"]
+        always = len(sends) == 1 and not (set(rets) & ov.reach_from([0], avoid=[sends[0][0]]))
+        # the value: InstallProgress{ progress = the fn's own `progress` parameter, captured as is }
+        caps = terms.render(fv, fv.trace_local(0), W, {})
+        val = terms.render(ov, ov.trace_op(sends[0][1]["args"][1]), W, {}) if sends else ""
+        m_ = re.fullmatch(r"InstallProgress\{param1\.(\d+)\}", val)
+        capt = re.search(r"\{closure#0\}\{([^}]*)\}", caps)
+        cap_list = [x.strip() for x in capt.group(1).split(",")] if capt else []
+        same = bool(m_) and int(m_.group(1)) < len(cap_list) and cap_list[int(m_.group(1))] == "param3"
+        no_branch = not any(ov.blocks[bi]["t"]["k"] == "switch" and ov.switch_subject(bi) is None and bi in ov.reach_from([0], avoid=[sends[0][0]]) for bi in ov.reach0) if sends else False
+        R.check("C13-R4", "observer-sends-every-value", always and same, "receive_progress sends InstallProgress{progress} for every value, before anything else",
+                "the observer does not put every reported value on the channel unconditionally and unchanged (send on every path: %s, value: %s, captured: %s, no test before the send: %s)" % (always, val[:80], cap_list, no_branch), lib.loc(ov, sends[0][0]) if sends else None)
     R.rule("C13-R5", "the futures built by Yield::yield_/yield_all (and by the progress observer) complete only after the rendezvous channel was flushed: the sink operation is send/send_all, or every feed/start_send is followed by flush on all paths")
     FLUSHING = ("send", "send_all", "flush", "close")
     NONFLUSHING = ("feed", "start_send", "try_send", "poll_ready", "start_send_unpin")
@@ -205,6 +224,11 @@ def run(F, R):
         names_ = sorted(t["name"] for _, t in polls)
         R.check("C13-R7", "polls-with-consumer-context", "poll" in names_ and "poll_next" in names_ and all(cx_ok) and not other, "task: Future::poll(cx); channel: Stream::poll_next(cx)",
                 "Generator::poll_next does not poll both the task and the channel with the consumer's context (polls: %s with own cx %s; other channel reads: %s): a wake-up can be lost" % (names_, cx_ok, other))
+
+    # ---------------------------------------------------------------- lock discipline (shared engine va/locks.py)
+    R.rule("C13-R8", "lock discipline: no event is emitted while a mutex guard is held (a consumer that takes the same shared mutex between two polls would stop the flow for good), no mutex is taken while a guard of the same kind is held, and two kinds are always taken in the same order")
+    from .. import locks as _locks
+    _locks.check(R, "C13-R8", sm.w, [sm.c], floor_regions=12)
 
 
 def _mentions(x, l):
